@@ -1467,6 +1467,14 @@ func genC13GRPC(r *rand.Rand, st *c13State, fam string) *c13Req {
 			{"none", (&renderStyle{}).render(c13Cfg())}, {"content-empty", ""}, {"opl-garbage", "class class {{{"},
 			{"opl-binary", "\x00\x01\xff\xfe"}, {"opl-huge", strings.Repeat("class A implements Namespace {}\n", hugeBody/32)},
 			{"opl-many-errors", strings.Repeat("} ", 2000)}, {"opl-deep-parens", "class A implements Namespace { permits = { p: (ctx) => " + strings.Repeat("(", 5000) + "} }"},
+			// `content` is a bytes field: string literals with bytes that are not UTF-8,
+			// in positions that end up inside error messages
+			{"opl-non-utf8-literal-unexpected", "class A implements Namespace { related: \"\xff\xfe\" }"},
+			{"opl-non-utf8-literal-undeclared-type", "class A implements Namespace { related: { r: \"N\xc3\x28\"[] } }"},
+			{"opl-non-utf8-literal-undeclared-relation", "class A implements Namespace { related: { r: A[] } permits = { p: (ctx) => this.related[\"\xe2\x82\"].includes(ctx.subject) } }"},
+			{"opl-non-utf8-literal-subjectset", "class A implements Namespace { related: { r: SubjectSet<A, \"m\xf0\x28\x8c\x28\">[] } }"},
+			{"opl-non-utf8-unterminated-string", "class A implements Namespace { related: { \"r\xff"},
+			{"opl-non-utf8-identifier", "class A\xff implements Namespace {}"},
 		}
 		x := bodies[r.IntN(len(bodies))]
 		q.Mut = x.K
